@@ -370,15 +370,37 @@ class AppCfgMgr:
                 app_abort.report_aborted(self.tm_env, instance_name,
                                          why=err.reason,
                                          payload=traceback.format_exc())
-                fs.rm_safe(event_file)
+                self._discard(event_file)
                 return False
             except Exception as err:  # pylint: disable=W0703
                 _LOGGER.exception('Error configuring (%r)', instance_name)
                 app_abort.report_aborted(self.tm_env, instance_name,
                                          why=app_abort.AbortedReason.UNKNOWN,
                                          payload=traceback.format_exc())
-                fs.rm_safe(event_file)
+                self._discard(event_file)
                 return False
+
+    def _discard(self, event_file):
+        """Drop a cache entry that could not be configured and hand what was
+        already created of its container over to cleanup.
+        """
+        try:
+            container = appcfg.eventfile_unique_name(event_file)
+        except OSError:
+            # No (more) cache entry.
+            container = None
+
+        fs.rm_safe(event_file)
+
+        if container is None:
+            return
+
+        container_dir = os.path.join(self.tm_env.apps_dir, container)
+        if os.path.isdir(container_dir):
+            fs.symlink_safe(
+                self._cleanup_link(os.path.basename(event_file), container),
+                container_dir
+            )
 
     def _terminate(self, instance_name):
         """Removes application from the supervised running list.
